@@ -54,7 +54,7 @@ class C20Monitor(Monitor):
         is_bare = name in self.bare_moves
         raw = getattr(w, "raw_verdict", verdict)
         w.result.cover.add(f"{drv}|{'bare' if is_bare else w.move_cat(name)}|{verdict}|"
-                           f"{'natoms' if pre['n'] != post['n'] else ''}{'cell' if pre['cell'] != post['cell'] else ''}")
+                           f"{'natoms' if pre['n'] != post['n'] else ''}{'cell' if not np.array_equal(pre['cellarr'], post['cellarr']) else ''}")
         # a user move that is a member of a hand-built composite entry is executed once per trial of that entry,
         # wherever it stands among its siblings and whatever they return
         for p, ent in new.items():
@@ -82,7 +82,7 @@ class C20Monitor(Monitor):
                     elif not eval(crit_calls[0][2]) and drv != "MonteCarlo":  # noqa: S307
                         # a falsy verdict of whatever type is a rejection: the trial must be undone
                         # (the base driver's context remembers nothing to undo with)
-                        if pre["n"] != post["n"] or not np.array_equal(pre["positions"], post["positions"]) or pre["cell"] != post["cell"]:
+                        if pre["n"] != post["n"] or not np.array_equal(pre["positions"], post["positions"]) or not np.array_equal(pre["cellarr"], post["cellarr"]):
                             self.violate(w, "rejected_by_user_criteria_but_not_undone", f"driver={drv}|verdict_type={type(eval(crit_calls[0][2])).__name__}",  # noqa: S307
                                          f"criteria returned {crit_calls[0][2]} (falsy) but the trial configuration is still on the atoms")
                         w.result.count("probe.falsy_verdicts_checked")
@@ -94,7 +94,8 @@ class C20Monitor(Monitor):
                 w.result.count("probe.bare_trials")
         # notifications to every bare move
         count_changed = pre["n"] != post["n"] or (pre["uid"] is not None and not np.array_equal(pre["uid"], post["uid"]))
-        cell_changed = pre["cell"] != post["cell"]
+        # (numerically: a masked deformation that multiplies by the identity turns -0.0 into 0.0, which is no change)
+        cell_changed = not np.array_equal(pre["cellarr"], post["cellarr"])
         for p in self.bare_moves:
             notes_atoms = [e for e in new[p] if e[0] == "call" and e[1] == "on_atoms_changed"]
             notes_cell = [e for e in new[p] if e[0] == "call" and e[1] == "on_cell_changed"]
